@@ -21,36 +21,37 @@ def presentAt : List SC → Nat → Except Err (Option SC)
 /-- `set_up_signer`: certificate iff more than 1 s since it was last included, or a peer asked for it -/
 def wantsCert (S : Station) (now : Nat) : Bool := decide (now - S.lastFull > 1000) || S.reqOwn
 
-def setUpSigner (S : Station) (now : Nat) (a : SC) : Station × Signer :=
-  if S.wantsCert now then ({ S with lastFull := now, reqOwn := false }, .certs [a.c])
-  else (S, .digest a.c.id)
-
 def baseMsg (psid genTime payload : Nat) (a : SC) (sg : Signer) : Msg :=
   { psid := psid, genTime := some genTime, genLoc := false, p2pcdLearn := false, missingCrl := false,
     expiry := false, encKey := false, inlineReq := none, reqCert := none, signer := sg, sigFmtOk := true,
     sigBy := some a.c.key, payload := payload }
 
-/-- `sign_cam` (also used for the VAM profile) -/
+/-- `requested_ats.pop(0)` + `get_known_at_for_request`: the pop happens before the lookup that may raise -/
+def popRequested (S : Station) : Station × Except Err (Option Cert) :=
+  match S.requestedAts with
+  | [] => (S, .ok none)
+  | x :: rest =>
+    match caByH3 S.store x with
+    | some ca => ({ S with requestedAts := rest }, .ok (some ca.c))
+    | none => ({ S with requestedAts := rest }, .error .runtimeError)
+
+/-- `inlineP2pcdRequest` header field -/
+def inlineField (S : Station) : Option (List Nat) := if S.unknownAts.isEmpty then none else some S.unknownAts
+
+/-- `sign_cam` (also used for the VAM profile); `set_up_signer` inlined: certificate + timer restart, or digest -/
 def signCam (S : Station) (now psid genTime payload : Nat) : Station × Except Err Msg :=
-  let inl := if S.unknownAts.isEmpty then none else some S.unknownAts
-  -- requested_ats.pop(0) happens before the lookups that may raise
-  let (S1, rc) : Station × Except Err (Option Cert) :=
-    match S.requestedAts with
-    | [] => (S, .ok none)
-    | x :: rest =>
-      let S' := { S with requestedAts := rest }
-      match caByH3 S.store x with
-      | some ca => (S', .ok (some ca.c))
-      | none => (S', .error .runtimeError)
-  match rc with
-  | .error e => (S1, .error e)
-  | .ok rc =>
+  match popRequested S with
+  | (S1, .error e) => (S1, .error e)
+  | (S1, .ok rc) =>
     match presentAt S1.store.own psid with
     | .error e => (S1, .error e)
     | .ok none => (S1, .error .runtimeError)
     | .ok (some a) =>
-      let (S2, sg) := S1.setUpSigner now a
-      (S2, .ok { baseMsg psid genTime payload a sg with inlineReq := inl, reqCert := rc })
+      if S1.wantsCert now then
+        ({ S1 with lastFull := now, reqOwn := false },
+          .ok { baseMsg psid genTime payload a (.certs [a.c]) with inlineReq := S.inlineField, reqCert := rc })
+      else
+        (S1, .ok { baseMsg psid genTime payload a (.digest a.c.id) with inlineReq := S.inlineField, reqCert := rc })
 
 /-- `sign_denm`: always the certificate; generationLocation mandatory -/
 def signDenm (S : Station) (hasLoc : Bool) (psid genTime payload : Nat) : Station × Except Err Msg :=
